@@ -1233,10 +1233,16 @@ package desync
 //@ spec func idOfHex(s string) ChunkID
 //@ axiom hexOfIs64: forall id ChunkID :: isHex64(hexOf(id)) && idOfHex(hexOf(id)) == id
 
+//@ ghost var $enc string
 //@ func (c *ChunkID) String
-//@   trusted
+//@   prop C16 C20 C15
+//@   trusted ensures
 //@   pure
 //@   ensures r0 == hexOf(*c)
+//# proved of the body: what is returned is hex.EncodeToString of all 32 bytes of the ID
+//@   oncall EncodeToString: requires len($arg0) == 32
+//@   ghost@after:EncodeToString $enc = $r0
+//@   assert@returned $ret0 == $enc
 
 //# chunk IDs are parsed strictly: exactly 32 bytes, exactly 64 hexadecimal digits - nothing longer, no suffix; the
 //# servers and the store walkers (which file is a chunk of this store, which ID a request names) rely on it
